@@ -103,6 +103,7 @@ type World struct {
 	handles          []*sod.DB
 	absOps           []string
 	lastPut          []putRecord
+	ownsTransforms   bool
 	lastSchema       *sod.Schema
 	lastSchemaCfg    string
 	noHostile        bool
@@ -347,6 +348,10 @@ func (w *World) Put(x *Rec, kind string) writeOutcome {
 	w.logf(" -> %s uuid=%.8s", out.Class, x.UUID())
 	api := "InsertOrUpdate(" + kind + ")"
 	w.lastPut = append(w.lastPut, putRecord{X: x, Want: want, Class: out.Class, Exp: expClass, Api: api})
+	if w.transformsForeign(x, want, out.Class) {
+		w.hostileScramble(x)
+		return out
+	}
 	if w.predict && out.Class != expClass {
 		w.fail("accept-mismatch:want-"+expClass+"-got-"+out.Class, api, "-",
 			fmt.Sprintf("expected %s (%s), got %s: %v; object %s", expClass, expDetail, out.Class, out.Err, recBrief(x)))
@@ -510,4 +515,19 @@ func shortList(us []string) string {
 		b = append(b, short(u))
 	}
 	return "[" + strings.Join(b, " ") + "]"
+}
+
+// transformsForeign: outside the checks that own the Transform / case
+// canonicalisation clauses (C15, C16), an object that sod did not transform the
+// way the statement says makes this check's model and predictions unreliable:
+// the case becomes inconclusive instead of accusing the property under test.
+func (w *World) transformsForeign(x, want *Rec, class string) bool {
+	if w.ownsTransforms || (class != "nil" && class != "unique" && class != "invalid") {
+		return false
+	}
+	if canonJSON(x) != canonJSON(want) {
+		w.incon = "foreign divergence: the object was not transformed as the statement of C15/C16 says; this check's model cannot judge the rest of the history"
+		return true
+	}
+	return false
 }
